@@ -198,7 +198,11 @@ class Davenport:
         """
         _assert_numerical_iterable(acc, 'Gravitational acceleration vector')
         _assert_numerical_iterable(mag, 'Geomagnetic field vector')
-        B = self.w[0]*np.outer(acc, self.g_q) + self.w[1]*np.outer(mag, self.m_q)   # Attitude profile matrix
+        # Wahba's weights apply to unit observations: the magnitudes of the samples and of the references carry no information
+        acc, mag = np.array(acc, dtype=float), np.array(mag, dtype=float)
+        acc, mag = acc/np.linalg.norm(acc), mag/np.linalg.norm(mag)
+        g_q, m_q = self.g_q/np.linalg.norm(self.g_q), self.m_q/np.linalg.norm(self.m_q)
+        B = self.w[0]*np.outer(acc, g_q) + self.w[1]*np.outer(mag, m_q)     # Attitude profile matrix
         sigma = B.trace()
         z = np.array([B[1, 2]-B[2, 1], B[2, 0]-B[0, 2], B[0, 1]-B[1, 0]])
         S = B+B.T
